@@ -9,7 +9,7 @@ namespace Spydr.Names
 /-- **One step preserves the index invariant** — every operation, every argument, accepted or refused,
     including the adoption of the parent's policy by a whole subtree on `add` (`apply_namespace` after the
     compliance check), explicit `.NS` assignment / deletion and switching the process-wide policy. -/
-theorem step_nsinv (s : N) (op : Op) (h : NsInv s) : NsInv (step s op).1 := by
+theorem stepCore_nsinv (s : N) (op : Op) (h : NsInv s) : NsInv (stepCore s op).1 := by
   cases op with
   | create e => exact create_nsinv s e h
   | attach p c => exact attach_nsinv s p c h
@@ -21,6 +21,33 @@ theorem step_nsinv (s : N) (op : Op) (h : NsInv s) : NsInv (step s op).1 := by
   | setNs e p => exact setNs_nsinv s e p h
   | delNs e => exact delNs_nsinv s e h
   | setDefault p => exact setDefault_nsinv s p h
+  | createIn p c n i => simpa [stepCore] using h
+
+theorem tryAll_nsinv (s0 s : N) (ops : List Op) (h0 : NsInv s0) (h : NsInv s) : NsInv (tryAll s0 s ops).1 := by
+  induction ops generalizing s with
+  | nil => exact h
+  | cons op ops ih =>
+    simp only [tryAll]
+    have hs := stepCore_nsinv s op h
+    split
+    · rename_i s1 heq
+      rw [heq] at hs
+      exact ih s1 hs
+    · exact h0
+
+theorem step_nsinv (s : N) (op : Op) (h : NsInv s) : NsInv (step s op).1 := by
+  cases op with
+  | createIn p c n i => exact tryAll_nsinv s s _ h h
+  | create e => exact stepCore_nsinv s _ h
+  | attach p c => exact stepCore_nsinv s _ h
+  | detach p c => exact stepCore_nsinv s _ h
+  | setKey e k v => exact stepCore_nsinv s _ h
+  | delKey e k => exact stepCore_nsinv s _ h
+  | popKey e k => exact stepCore_nsinv s _ h
+  | delNameProp e => exact stepCore_nsinv s _ h
+  | setNs e p => exact stepCore_nsinv s _ h
+  | delNs e => exact stepCore_nsinv s _ h
+  | setDefault p => exact stepCore_nsinv s _ h
 
 /-- **Every history, every prefix, under both policies and across policy switches**: the tables index
     exactly the current children. -/
@@ -161,7 +188,7 @@ theorem rename_refused_iff (s : N) (h : NsInv s) (e : El) (v : String) :
       (match s.parent e with
         | none => Res.ok
         | some p => if s.hasTbl p && !s.noConflict p e .name v then Res.value else Res.ok) := by
-    simp only [step, hok, Bool.not_true, Bool.false_eq_true, if_false]
+    simp only [step, stepCore, hok, Bool.not_true, Bool.false_eq_true, if_false]
     cases s.parent e with
     | none => rfl
     | some p => simp only []; split <;> rfl
